@@ -144,6 +144,17 @@ CHECKS = {
         design_ref='6/C16',
         note='Trusted: hashlib, base64; the rendering rules (prefix, colon, base64 / colon-separated hex) are applied by the harness.',
         technique='independent TLA+ reference (wire-level preimage and key blob) evaluated by TLC; digests by hashlib'),
+    'C08': dict(
+        category='model_checking',
+        text='DnsWire.tla encodes DNSKEY (RSA both exponent-length forms, DSA, ECDSA, GOST, EdDSA), DS, RRSIG, MX, TXT and '
+             'uncompressed names from RFC 1035/2536/3110/4034/6605/8080, and the key tag of RFC 4034 Appendix B / B.1 over the '
+             'RDATA bytes. TLC checks the fold lemma on small strings and compares compose() / key_tag of corpus records, '
+             'constructor variations and generated keys (odd and even RDATA lengths) with the reference; conformant RDATA '
+             'assembled from raw key material (Ed448 = 57 octets) is fed to the parser.',
+        design_ref='6/C08',
+        note='Trusted: my transcription of the RFCs; harness/wire_dns.py. Two recorded findings are pinned by existing tests '
+             '(odd-length key tag, Ed448 key of 56 octets).',
+        technique='independent TLA+ reference encoder and key tag evaluated by TLC on recorded and generated records'),
 }
 
 NOT_APPLICABLE = {}
